@@ -296,7 +296,10 @@ static void misc_items(void)
     /* PRNG with a scripted system source: deterministic in the tape */
     { ascon_random_state_t rs; uint8_t o[64]; int r;
       sysrand_reset(77); r = ascon_random_init(&rs); t_int(r); ascon_random_fetch(&rs, o, 40); t_add(o, 40); ascon_random_feed(&rs, MSG, 13); ascon_random_fetch(&rs, o, 9); t_add(o, 9);
-      r = ascon_random_reseed(&rs); t_int(r); ascon_random_fetch(&rs, o, 64); t_add(o, 64); ascon_random_free(&rs);
+      r = ascon_random_reseed(&rs); t_int(r); ascon_random_fetch(&rs, o, 64); t_add(o, 64);
+      /* across the automatic reseed limit: 16384 bytes, then more (the forced-reseed branch), in one call and in small calls */
+      { static uint8_t bigo[16400]; ascon_random_fetch(&rs, bigo, 16384); t_add(bigo + 16300, 84); ascon_random_fetch(&rs, o, 8); t_add(o, 8); for (int i = 0; i < 1200; i++) ascon_random_fetch(&rs, bigo, 15); ascon_random_fetch(&rs, o, 9); t_add(o, 9); }
+      ascon_random_free(&rs);
       sysrand_reset(78); r = ascon_random(o, 33); t_int(r); t_add(o, 33); }
     t_end("random");
 }
